@@ -189,7 +189,9 @@ func runC05(w *W) {
 			for i, sp := range spans {
 				text := src[sp.Start:sp.End]
 				// keyword used as a keyword: its spelling does not show up in EXPLAIN
-				soft := sp.Tok == token.IDENT && !sp.Quoted && softKeywords()[strings.ToUpper(text)]
+				// (a soft keyword's spelling must not occur in the EXPLAIN text at all, not even inside a longer word:
+				// `min(DISTINCT x)` prints `minDistinct` — there `min` is a function name whose case is kept)
+				soft := sp.Tok == token.IDENT && !sp.Quoted && softKeywords()[strings.ToUpper(text)] && !strings.Contains(baseJoined, text)
 				if (sp.Tok.IsKeyword() || soft) && r.Chance(1, 2) && !wholeWord(baseJoined, text) && !wholeWord(baseJoined, sp.Val) {
 					nt := flipCase(r, text)
 					if nt != text {
